@@ -89,10 +89,24 @@ type cliRun struct {
 	err      error
 }
 
+// cliViaLink: name the serial port through a symbolic link (/dev/serial/by-id/..., a udev SYMLINK+= name) instead of the device node
+var cliViaLink bool
+
 func runVecli(bin string, dev *DevPort, verbose, ioLog bool, limit time.Duration) cliRun {
 	master, slave, err := openPty()
 	if err != nil {
 		return cliRun{err: err}
+	}
+	node := slave // the device node itself (the name handed to the CLI may be a link to it)
+	if cliViaLink {
+		dir, err := os.MkdirTemp("", "verif-serial-by-id-*")
+		if err == nil {
+			defer os.RemoveAll(dir)
+			link := filepath.Join(dir, "usb-VictronEnergy_BV_VE_Direct_cable_VE1ABCDE-if00-port0")
+			if os.Symlink(slave, link) == nil {
+				slave = link
+			}
+		}
 	}
 	var wg sync.WaitGroup
 	wg.Add(1)
@@ -119,6 +133,11 @@ func runVecli(bin string, dev *DevPort, verbose, ioLog bool, limit time.Duration
 	r := cliRun{stdout: out.String(), err: rerr}
 	if ctx.Err() != nil {
 		r.timedOut = true
+	}
+	// a CLI that gave up before it opened the port leaves the simulator waiting for a first byte: opening and closing the
+	// slave side once ends that read with a hang-up
+	if f, e := os.OpenFile(node, os.O_RDWR|syscall.O_NOCTTY, 0); e == nil {
+		f.Close()
 	}
 	master.Close()
 	wg.Wait()
@@ -223,26 +242,28 @@ func suiteC20(rng *Rng, thorough bool, s *Sink) {
 		midFrame bool // the device dies in the middle of the frame answering the (k+1)-th Get
 		latency  int  // milliseconds the device takes for every answer (well below the 200 ms read timeout)
 		async    int  // an asynchronous frame precedes every async-th answer
+		link     bool // the port is named through a symbolic link
 	}
 	var scens []scen
 	for i, id := range ids {
-		scens = append(scens, scen{id, false, false, -1, false, false, 0, 0})
-		scens = append(scens, scen{id, i%2 == 0, true, -1, false, false, 0, 0})
+		scens = append(scens, scen{id, false, false, -1, false, false, 0, 0, false})
+		scens = append(scens, scen{id, i%2 == 0, true, -1, false, false, 0, 0, false})
 		if thorough {
-			scens = append(scens, scen{id, true, false, -1, false, false, 0, 0}, scen{id, true, true, -1, false, false, 0, 0})
+			scens = append(scens, scen{id, true, false, -1, false, false, 0, 0, false}, scen{id, true, true, -1, false, false, 0, 0, false})
 		}
 	}
 	// a slow but healthy device (75 ms per answer: about four seconds for the whole list), a device that keeps sending
 	// asynchronous frames between its answers (with the io log on: it must still replay)
 	scens = append(scens, scen{id: 0xA05F, silent: -1, latency: 75}, scen{id: 0xA381, ioLog: true, silent: -1, async: 4}, scen{id: 0xA056, ioLog: true, verbose: true, silent: -1, async: 1})
+	scens = append(scens, scen{id: 0xA056, silent: -1, link: true}, scen{id: 0x203, ioLog: true, silent: -1, link: true})
 	// silent exactly at the last registers read (the field-list group comes last): -2 = after all but one answer, -3 = all but two
-	scens = append(scens, scen{0xA056, false, false, -2, false, false, 0, 0}, scen{0xA231, false, true, -2, false, false, 0, 0}, scen{0xA231, true, false, -3, false, false, 0, 0},
-		scen{0xA05F, false, false, -2, false, false, 0, 0}, scen{0x203, false, false, -2, false, false, 0, 0})
-	scens = append(scens, scen{0xA056, false, false, 0, false, false, 0, 0}, scen{0xA381, false, true, 7, false, false, 0, 0}, scen{0x203, true, false, 3, false, false, 0, 0}, scen{0xA231, false, false, -1, true, false, 0, 0},
-		scen{0xA053, false, false, 5, false, true, 0, 0}, scen{0x203, false, true, 0, false, true, 0, 0})
+	scens = append(scens, scen{0xA056, false, false, -2, false, false, 0, 0, false}, scen{0xA231, false, true, -2, false, false, 0, 0, false}, scen{0xA231, true, false, -3, false, false, 0, 0, false},
+		scen{0xA05F, false, false, -2, false, false, 0, 0, false}, scen{0x203, false, false, -2, false, false, 0, 0, false})
+	scens = append(scens, scen{0xA056, false, false, 0, false, false, 0, 0, false}, scen{0xA381, false, true, 7, false, false, 0, 0, false}, scen{0x203, true, false, 3, false, false, 0, 0, false}, scen{0xA231, false, false, -1, true, false, 0, 0, false},
+		scen{0xA053, false, false, 5, false, true, 0, 0, false}, scen{0x203, false, true, 0, false, true, 0, 0, false})
 	if thorough {
 		for k := 0; k < 30; k++ {
-			scens = append(scens, scen{ids[rng.Intn(len(ids))], rng.Bool(), rng.Bool(), rng.Intn(40), false, rng.Bool(), 0, 0})
+			scens = append(scens, scen{ids[rng.Intn(len(ids))], rng.Bool(), rng.Bool(), rng.Intn(40), false, rng.Bool(), 0, 0, false})
 		}
 	}
 	for _, sc := range scens {
@@ -288,7 +309,9 @@ func suiteC20(rng *Rng, thorough bool, s *Sink) {
 		}
 		sort.Strings(mp)
 		limit := 30 * time.Second
+		cliViaLink = sc.link
 		run := runVecli(bin, dev, sc.verbose, sc.ioLog, limit)
+		cliViaLink = false
 		m := strings.Join(mp, ",")
 		if m == "" {
 			m = "-"
@@ -310,6 +333,9 @@ func suiteC20(rng *Rng, thorough bool, s *Sink) {
 		}
 		if sc.midFrame {
 			op += " mut:device-dies-mid-frame"
+		}
+		if sc.link {
+			op += " mut:port-named-through-a-symlink"
 		}
 		tag := "full"
 		if sc.silent >= 0 {
@@ -426,6 +452,37 @@ func suiteC20(rng *Rng, thorough bool, s *Sink) {
 			if errLine == "" {
 				viol("the device stopped answering but no error was reported")
 			}
+		}
+		// the io log of a run that ended with an error: every exchange the device answered before it fell silent is in the log
+		// (ping, device id, the answered reads), and each replays to the value the device held
+		if sc.ioLog && !full && !sc.noPing {
+			answered := sc.silent
+			if answered > rl.Len() {
+				answered = rl.Len()
+			}
+			nOK, nGetOK := 0, 0
+			for _, ln := range strings.Split(strings.TrimRight(run.ioLog, "\n"), "\n") {
+				if ln == "" {
+					continue
+				}
+				tx, rx, ok := parseIoLine(ln)
+				if !ok {
+					viol("io log line of a failed run does not parse: " + ln)
+					continue
+				}
+				nOK++
+				fs := grammarFrames(tx)
+				if len(fs) == 1 && fs[0].nibble == 7 && len(fs[0].payload) >= 2 {
+					addr := uint16(fs[0].payload[0]) | uint16(fs[0].payload[1])<<8
+					if a, has := dev.Regs[addr]; has && strings.Contains(string(rx), string(simGet(addr, a.Flag, a.Payload))) {
+						nGetOK++
+					}
+				}
+			}
+			if nOK < 2+answered || nGetOK < answered {
+				viol(fmt.Sprintf("the device answered ping, id query and %d reads before it fell silent; the io log of that run holds %d lines, %d of them answered reads (a log that ends before the run does cannot be replayed)", answered, nOK, nGetOK))
+			}
+			s.Extra["io_logs_of_failed_runs_checked"]++
 		}
 		// the io log replays to the same values
 		if sc.ioLog && full {
